@@ -11,6 +11,10 @@
     L <dir>=<n.n.…>,…    the directories that `opendir` can list, with their entry names (hex)
     M <pcs>=<kind>[=<n.n.…>],…   per component pattern (`n<cp>`/`l<cp>` joined by `.`): what yash_fnmatch
                          says: `N` unparsable, `L<hex>` literal, `P` pattern + the candidate names it matches
+    X <tree>             what the root directory holds besides `t` (same entry syntax, paths from `/`)
+  From `T`, `X` and `R` the driver also builds the world model (`World.lean`: inode table with mode
+  bits), derives the two oracles from it and demands that they answer like the dump (`E`, `L`) and give
+  the same expansion; otherwise the observation is `WORLD-MODEL-DIFFERS`.
   Observation: the resulting fields, hex, comma-separated.
   Spec column: `=<fields>` from the brute-force `specGlobU` when the dumped oracles satisfy `WF`
   (checked here on the finite dump), `-` otherwise (the theorems assume `WF`).
@@ -18,6 +22,8 @@
 import YashModel.Common.Proto
 import YashModel.Glob.Model
 import YashModel.Glob.Spec
+import YashModel.Glob.Dump
+import YashModel.Glob.World
 open YashModel YashModel.Glob YashModel.Proto
 
 def hexNat (s : String) : Option Nat :=
@@ -64,11 +70,6 @@ def parsePc (t : String) : Option PatternChar :=
 def parsePcs (t : String) : Option (List PatternChar) :=
   (listOf t ".").mapM parsePc
 
-structure MEntry where
-  pcs : List PatternChar
-  kind : Kind
-  names : List Name
-
 def parseMEntry (t : String) : Option MEntry :=
   match t.splitOn "=" with
   | [p, "N"] => do pure { pcs := ← parsePcs p, kind := Kind.invalid, names := [] }
@@ -85,47 +86,39 @@ def parseLEntry (t : String) : Option (Path × List Name) :=
   | [d, ns] => do pure (← decChars d, ← (listOf ns ".").mapM decChars)
   | _ => none
 
-def lookupM (tab : List MEntry) (pcs : List PatternChar) : Option MEntry :=
-  tab.find? (fun e => e.pcs == pcs)
+def octNat (s : String) : Option Nat :=
+  s.toList.foldl (fun acc c => do
+    let a ← acc
+    if '0' ≤ c ∧ c ≤ '7' then pure (a * 8 + (c.toNat - 48)) else none) (if s.isEmpty then none else some 0)
 
-def mkMatcher (tab : List MEntry) : Matcher where
-  kind pcs := match lookupM tab pcs with
-    | some e => e.kind
-    | none => Kind.invalid
-  isMatch pcs n := match lookupM tab pcs with
-    | some e => e.names.contains n
-    | none => false
+def segsOf (p : Path) : List Name := (splitSeg [] p).filter (· != [])
 
-def mkFs (e : List Path) (l : List (Path × List Name)) : Fs where
-  exist p := e.contains p
-  list d := (l.find? (fun x => x.1 == d)).map (·.2)
+/-- one tree entry (`f<path>`, `d<path>:<mode>`, `l<path>:<target>`) below the directory `base` -/
+def parseEntry (base : List Name) (t : String) : Option (List Name × NodeKind) :=
+  match t.toList with
+  | 'f' :: r => do pure (base ++ segsOf (← decChars (String.ofList r)), NodeKind.file)
+  | 'd' :: r =>
+    match (String.ofList r).splitOn ":" with
+    | [p, m] => do pure (base ++ segsOf (← decChars p), NodeKind.dir (← octNat m))
+    | _ => none
+  | 'l' :: r =>
+    match (String.ofList r).splitOn ":" with
+    | [p, x] => do pure (base ++ segsOf (← decChars p), NodeKind.link (← decChars x))
+    | _ => none
+  | _ => none
 
-/-- every way of cutting `p` at a slash: the parts before -/
-def slashPrefixes : Path → Path → List Path
-  | _, [] => []
-  | acc, c :: cs =>
-    let rest := slashPrefixes (acc ++ [c]) cs
-    if c == '/' then acc :: rest else rest
+def mkWorld (tEntries xEntries : List (List Name × NodeKind)) (fdFree : Bool) : World where
+  entries := ([], NodeKind.dir 0o755) :: ([['t']], NodeKind.dir 0o755) :: (tEntries ++ xEntries)
+  fdFree := fdFree
 
-/-- `WF` evaluated on the finite dump (`univ` = every name that occurs in a listing) -/
-def wfDump (fs : Fs) (e : List Path) (l : List (Path × List Name)) (univ : List Name) : Bool :=
-  (l.all fun (d, ns) =>
-    let pre? : Option Path :=
-      if d == ['.'] then some [] else if d.getLast? == some '/' then some d else none
-    match pre? with
-    | none => true
-    | some pre =>
-      ns.eraseDups.length == ns.length
-      && ns.all (fun n => validName n && fs.exist (pre ++ n))
-      && univ.all (fun n => !(validName n && fs.exist (pre ++ n)) || ns.contains n))
-  && e.all (fun p => (slashPrefixes [] p).all fs.exist)
+def sameNames (a b : List Name) : Bool := a.all b.contains && b.all a.contains
 
 def showFields (l : List Path) : String :=
   if l.isEmpty then "none" else ",".intercalate (l.map encChars)
 
 def runLine (line : String) : String :=
   match splitTrim line "|" with
-  | [prim, f, e, l, mm] =>
+  | [prim, f, e, l, mm, xx] =>
     let r : Option String := do
       let pw := words prim
       let g ← keyed "G" pw
@@ -144,6 +137,11 @@ def runLine (line : String) : String :=
       let tab ← match words mm with
         | ["M", t] => (listOf t ",").mapM parseMEntry
         | _ => none
+      let tEntries ← (listOf (← keyed "T" pw) ",").mapM (parseEntry [['t']])
+      let xEntries ← match words xx with
+        | ["X", t] => (listOf t ",").mapM (parseEntry [])
+        | _ => none
+      let wfs := fsOfWorld (mkWorld tEntries xEntries ((keyed "R" pw) != some "1"))
       let m := mkMatcher tab
       let fs := mkFs es ls
       let missing := fields.any fun field =>
@@ -153,9 +151,22 @@ def runLine (line : String) : String :=
         pure "MISSING-PATTERN\t-"
       else
         let out := expandFields m fs noglob mode fields
-        let univ := (ls.flatMap (·.2)).eraseDups
+        -- `wfDump` implies `WF fs`, `univOf` covers every listing (DumpLemmas.lean): by
+        -- `driver_spec_column` the Spec column, when printed, is the declarative Spec of the dump
+        let univ := univOf ls
         let spec :=
-          if wfDump fs es ls univ then "=" ++ showFields (specFieldsU m fs univ noglob mode fields) else "-"
+          if wfDump es ls then "=" ++ showFields (specFieldsU m fs univ noglob mode fields) else "-"
+        let worldOK :=
+          es.all wfs.exist
+          && ls.all (fun x => match wfs.list x.1 with
+              | some ns => sameNames ns x.2
+              | none => false)
+          && expandFields m wfs noglob mode fields == out
+        if !worldOK then
+          pure "WORLD-MODEL-DIFFERS\t-"
+        else if !periodDump tab then
+          pure "PERIOD-RULE-VIOLATED-BY-MATCH-TABLE\t-"
+        else
         pure (showFields out ++ "\t" ++ spec)
     r.getD "bad-case\t-"
   | _ => "bad-case\t-"
